@@ -341,9 +341,30 @@ def reuse_cases(rng, n, comps=gen.IDENT_ADVERSARIAL):
         if rng.random() < 0.5 and imps1:
             imps1 = imps1[: len(imps1) // 2]
         case = {"nodes": nodes, "imps": imps, "lim": None, "ops": ops, "spec": None, "nodes1": nodes1, "imps1": imps1}
+        if rng.random() < 0.4:
+            # the other way round: first the larger architecture, then the one in which some named / matched modules are
+            # missing - the second application must look every name up again (lookup error or no-match error like a fresh rule)
+            case["nodes"], case["imps"], case["nodes1"], case["imps1"] = nodes1, imps1, nodes, imps
+            if tab:
+                tab = [(tab[0][0], [m for m in nodes1 if _re.match(tab[0][0], m)])]
         if tab:
             case["mtab"] = tab
         out.append(case)
+        # an 'anything' rule over a module and one of its sub modules (the alias conversion drops the sub module and remembers
+        # it), applied first where both exist and then where the sub module is missing
+        if rng.random() < 0.25:
+            parents = [m for m in nodes if any(x.startswith(m + ".") for x in nodes)]
+            if parents:
+                x = rng.choice(parents)
+                below = [m for m in nodes if m.startswith(x + ".") and not any(y.startswith(m + ".") for y in nodes)]
+                if below:
+                    d = rng.choice(below)
+                    subs = [x, d] if rng.random() < 0.5 else [d, x]
+                    ops2 = [("mt", None), ("named", subs), ("not", None), (rng.choice(["impany", "byany"]), None)]
+                    n2 = [m for m in nodes if m != d]
+                    i2 = [e for e in imps if d not in e]
+                    if len(n2) >= 2:
+                        out.append({"nodes": n2, "imps": i2, "lim": None, "ops": ops2, "spec": None, "nodes1": nodes, "imps1": imps})
     return out
 
 
